@@ -21,6 +21,8 @@ pub use route_header::{RouteHeader, RouteHeaderKind};
 pub use route_ip::RouteIp;
 pub use route_time::RouteTime;
 pub use route_weekday::RouteWeekday;
+#[cfg(kani)]
+pub use route_weekday::Weekdays;
 use std::collections::{HashMap, HashSet};
 use std::sync::Arc;
 pub use trace::{RouteTrace, Trace};
